@@ -54,6 +54,7 @@ type c19Out struct {
 	snap     c19State
 	saw      int // what remap observed (0 absent), -1 not called
 	panicked string
+	retAt    int64 // != 0: the library call returned at this stamp although its result was read later (held iterator)
 }
 
 const (
@@ -218,6 +219,7 @@ type c19Rec struct {
 
 func execC19(r *sim.Run) {
 	r.Case = "clients"
+	r.OwnRange = true // Iterator() copies the snapshot entry by entry: every entry read is a scheduling point
 	cow := &mutable.CopyOnWriteMap[int, int]{}
 	wrapped := fp.Map[int, int]{Base: cow}
 
@@ -286,6 +288,8 @@ func execC19(r *sim.Run) {
 				in.val += r.Choose(2, "odd")
 			case c19Get:
 				in.viaMp = r.Choose(2, "viaMap") == 1
+			case c19Iter:
+				in.mode = r.Choose(2, "heldIterator")
 			}
 			st := 0
 			if stallPlan > 0 && r.Bool(stallPlan, 3, "stallHere") {
@@ -324,6 +328,15 @@ func execC19(r *sim.Run) {
 			out.size = cow.Size()
 		case c19Iter:
 			it := cow.Iterator()
+			if in.mode == 1 {
+				// held iterator: Iterator() has returned - that is where the operation ends - but the snapshot it stands for is
+				// read only after other clients have run; it must still show the map as it was at one instant of the call
+				out.retAt = stamp() + 1
+				r.Probe("iterator-held-across-other-operations")
+				for i := 0; i < 1+in.val%2; i++ {
+					t.Yield("held-iterator")
+				}
+			}
 			for it.HasNext() {
 				kv := it.Next()
 				if kv.I1 < 0 || kv.I1 >= c19Keys {
@@ -394,6 +407,9 @@ func execC19(r *sim.Run) {
 				rec.ret = -1
 				rec.out = doOp(t, po.in, po.stalls)
 				rec.ret = stamp() + 1
+				if rec.out.retAt != 0 {
+					rec.ret = rec.out.retAt
+				}
 				t.Logf("%s -> %s  [%d,%d]", po.in, rec.out.str(po.in), rec.call, rec.ret)
 			}
 		})
